@@ -687,6 +687,9 @@ func (s *SwapService) OnSwapInRequestReceived(swapId *SwapId, peerId string, mes
 		s.swapServices.messenger.SendMessage(peerId, msgBytes, msgType)
 		return err
 	}
+	if err := s.releaseIfStored(swapId); err != nil {
+		return err
+	}
 
 	done, err := swap.SendEvent(Event_SwapInReceiver_OnRequestReceived, message)
 	if done {
@@ -767,6 +770,9 @@ func (s *SwapService) OnSwapOutRequestReceived(swapId *SwapId, peerId string, me
 			Message: err.Error(),
 		})
 		s.swapServices.messenger.SendMessage(peerId, msgBytes, msgType)
+		return err
+	}
+	if err := s.releaseIfStored(swapId); err != nil {
 		return err
 	}
 
@@ -1019,6 +1025,23 @@ func (s *SwapService) swapIdKnown(swapId *SwapId) (bool, error) {
 		return false, nil
 	}
 	return false, err
+}
+
+// releaseIfStored gives the lock that was just taken for a requested swap back
+// if a swap with this id is already stored. The id check at the top of the
+// request handlers runs before several Lightning calls: a swap with the same
+// id can have been created and finished in the meantime. While the lock is
+// held nobody else can take the id, so looking at the store now is conclusive.
+func (s *SwapService) releaseIfStored(swapId *SwapId) error {
+	_, err := s.swapServices.swapStore.GetData(swapId.String())
+	if errors.Is(err, ErrDataNotAvailable) {
+		return nil
+	}
+	s.RemoveActiveSwap(swapId.String())
+	if err != nil {
+		return err
+	}
+	return ErrSwapIdInUse
 }
 
 // lockSwap locks in a swap. This function ensures that we only have one active
